@@ -24,6 +24,7 @@ options:
   wrap_python: true
   wrap_lua: true
 declarations:
+- decl: struct Pt { int x; double y; };
 - decl: int plain(int a)
   doxygen:
     brief: A plain function
@@ -71,6 +72,42 @@ declarations:
   declarations:
   - decl: Derived()
   - decl: int extra(int a)
+- decl: namespace inner
+  declarations:
+  - decl: int twice(int value)
+# user code in splicer blocks of every language: it is code, so it stays whatever the comment options say
+splicer_code:
+  f:
+    file_top:
+    - "#define USER_FILE_TOP 1"
+    module_top:
+    - "integer, parameter :: user_module_top = 1"
+    function:
+      arr:
+      - user_arr_body = 1
+    class:
+      Obj:
+        method:
+          value:
+          - user_value_body = 2
+    namespace:
+      inner:
+        file_top:
+        - "#define USER_INNER_TOP 1"
+        module_top:
+        - "integer, parameter :: user_inner_top = 1"
+  c:
+    CXX_definitions:
+    - static int user_c_definition = 1;
+    function:
+      plain:
+      - return 42;
+  py:
+    C_definition:
+    - static int user_py_definition = 1;
+  lua:
+    C_definition:
+    - static int user_lua_definition = 1;
 """
 OPTS = ["debug", "doxygen", "show_splicer_comments", "write_version", "literalinclude"]
 DEFAULTS = {"debug": False, "doxygen": True, "show_splicer_comments": True, "write_version": True, "literalinclude": False}
@@ -102,7 +139,9 @@ def apply(desc, subset, mode):
 def classes_under(node):
     out = []
     for d in node.get("declarations", []):
-        if "decl" in d and d["decl"].strip().startswith(("class ", "struct ")) and "declarations" in d:
+        # every declaration other than a function that takes options: classes, structs (with or without a member list
+        # of their own), enumerations, namespaces
+        if "decl" in d and d["decl"].strip().startswith(("class ", "struct ", "enum ", "namespace ")):
             out.append(d)
         if "declarations" in d:
             out += classes_under(d)
